@@ -312,15 +312,11 @@ theorem C16_ops_uncovered_nil (ops : List ROp) (hg : RemGuarded Ring.empty ops) 
       Bool.false_or, Bool.not_eq_eq_eq_not, Bool.not_true, Bool.not_eq_false]
     exact List.any_eq_true.mpr ⟨h', hm, by simp [e, hadr]⟩
 
-/-- the observation `nostale` = `Ring.staleAddrs` of the differential run is empty after EVERY history -/
-theorem C16_stale_nil (ops : List HOp) (n : Nat) : (ops.foldl applyH Ring.empty).staleAddrs n = [] := by
-  have hall := C16_byip_never_stale ops
-  dsimp only at hall
-  generalize ops.foldl applyH Ring.empty = r at hall
+theorem staleAddrs_nil_of_SInv (r : Ring.Ring) (hi : SInv r) (n : Nat) : r.staleAddrs n = [] := by
   unfold Ring.staleAddrs
   rw [List.filter_eq_nil_iff]
   intro a _
-  have := hall a
+  have := NoStale_lookup r hi.knodup hi.ns a
   generalize r.getHostByIP a = res at this
   obtain ⟨x, b⟩ := res
   cases b with
@@ -328,6 +324,25 @@ theorem C16_stale_nil (ops : List HOp) (n : Nat) : (ops.foldl applyH Ring.empty)
   | true =>
     obtain ⟨h, rfl, hm, ha⟩ := this x rfl
     simp [hm, ha]
+
+theorem SInv_runH (ops : List HOp) : ∀ (r : Ring.Ring), SInv r → SInv (ops.foldl applyH r) := by
+  induction ops with
+  | nil => intro r h; exact h
+  | cons o t ih =>
+    intro r h
+    apply ih
+    cases o with
+    | op o =>
+      cases o with
+      | addIfMissing h' => exact SInv_addIfMissing r h h'
+      | addOrUpdate h' => exact SInv_addIfMissing r h h'
+      | remove k => exact SInv_remove r h k
+    | refresh f rep => exact refresh_preserves SInv (fun r h' hp => SInv_addIfMissing r hp h') (fun r k hp => SInv_remove r hp k) r h f rep
+    | update id a c => exact SInv_updateStored r h id a c
+
+/-- the observation `nostale` = `Ring.staleAddrs` of the differential run is empty after EVERY history -/
+theorem C16_stale_nil (ops : List HOp) (n : Nat) : (ops.foldl applyH Ring.empty).staleAddrs n = [] :=
+  staleAddrs_nil_of_SInv _ (SInv_runH ops _ SInv_empty) n
 
 /-- RESIDUAL case (kernel-checked), outside what the property demands: two LIVE hosts on one address is
 not a state a cluster reports (`GoodReport`) and, since refreshRing removes what is gone before it adds
